@@ -49,10 +49,14 @@ def safe_repr(obj: Any, maxlen: int = 200) -> str:
 
 
 def serialize_json_safe(obj: Any) -> Any:
-    """Return ``obj`` if JSON serializable, else ``safe_repr`` string."""
+    """Return ``obj`` if JSON serializable, else ``safe_repr`` string.
+
+    Serializability is judged the way trace drivers dump records
+    (``sort_keys=True``), so mappings with unorderable keys fall back too.
+    """
 
     try:
-        json.dumps(obj, ensure_ascii=False)
+        json.dumps(obj, ensure_ascii=False, sort_keys=True)
         return obj
     except Exception:
         return safe_repr(obj)
